@@ -303,6 +303,11 @@ def install_mean_spy():
     OnlineVariance.combine_variance = combine_variance
 
 
+# absolute tolerance on a variance, in units of the squared scale of the values (the combination formula is accurate
+# relative to the spread it measures, not to the size of the values)
+ATOL_V = 1e-26
+
+
 def ov_case(case):
     from taurex.util.math import OnlineVariance
     r = core.R(case)
@@ -356,10 +361,10 @@ def ov_case(case):
         if n < 2:
             # fewer than two samples in total: NaN (what a single process answers) or the two-pass
             # value (0) are both accepted
-            ok = all_nan(v) or (want_v is not None and core.close(v, want_v, core.RTOL, 1e-18 * sc2))
+            ok = all_nan(v) or (want_v is not None and core.close(v, want_v, core.RTOL, ATOL_V * sc2))
             r.check(ok, 'fewer-than-two', 'ov/fewer-than-two-samples/not-nan-not-zero', got=v, rank=k)
         else:
-            good = np.shape(v) == shp and core.close(v, want_v, core.RTOL, 1e-18 * sc2)
+            good = np.shape(v) == shp and core.close(v, want_v, core.RTOL, ATOL_V * sc2)
             kind = 'variance-nan' if any_nan(v) else 'variance-wrong'
             r.check(good, 'variance==two-pass', 'ov/%s/%s' % (kind, tag), rank=k, got=v, want=want_v,
                     counts=counts, weights=w, maxrel=core.maxrel_safe(v, want_v))
@@ -372,7 +377,7 @@ def ov_case(case):
             r.check(goodm, 'mean==two-pass', 'ov/%s/%s' % ('mean-nan' if any_nan(m) else 'mean-wrong', tag),
                     rank=k, got=m, want=want_m, counts=counts, weights=w)
         same = (np.shape(v) == np.shape(first)) and (
-            core.close(np.nan_to_num(v, nan=-1.0), np.nan_to_num(first, nan=-1.0), core.RTOL, 1e-18 * sc2))
+            core.close(np.nan_to_num(v, nan=-1.0), np.nan_to_num(first, nan=-1.0), core.RTOL, ATOL_V * sc2))
         r.check(same, 'ranks-agree', 'ov/ranks-disagree/' + tag, rank=k, got=v, rank0=first)
     r.observe(np.asarray(first, dtype=float), res.verdict)
     r.nontrivial = n >= 2 and sum(1 for c in counts if c > 0) >= 2
@@ -396,6 +401,9 @@ def w_patterns(n):
         'zero-first': [0.0, 1e-300, 0.1, 0.5, 1.0, 0.1],
         'zero-last': [0.1, 1.0, 0.5, 0.1, 1e-300, 0.0][NMAX - n:] if n else [],
         'one-heavy': [1e-300, 1e-300, 1.0, 1e-300, 1e-300, 1e-300],
+        # importance weights of a sharply peaked posterior: one sample carries practically everything, the others
+        # 1e-18 .. 1e-22 of it (their spread is still a well-defined, representable number)
+        'ratio20': [1e-19, 1e-21, 1.0, 1e-20, 3e-19, 2e-20],
     }
     out = []
     for k in sorted(pats):
@@ -472,6 +480,9 @@ OPT_W = {
     'tiny': [1e-300, 0.5, 1e-300, 0.3, 0.2, 1e-300],
     # posterior mass in one sample: with sigma_fraction < 1 the drawn subset may carry zero weight only
     'one-nonzero': [0.0, 0.0, 1.0, 0.0, 0.0, 0.0],
+    # distinct weights on samples that share their temperature in pairs (equal derived values with different weights:
+    # their order in the trace decides the interpolated quantiles)
+    'tiedvals': [0.40, 0.30, 0.15, 0.10, 0.04, 0.01],
 }
 
 
@@ -487,6 +498,8 @@ def opt_samples(n, wlet):
     g = fx.rng('c18', 'samples')
     T = np.sort(g.uniform(700.0, 1600.0, size=NMAX))[::-1][[2, 0, 4, 1, 5, 3]]     # distinct, unsorted
     X = g.uniform(-6.0, -3.0, size=NMAX)
+    if wlet == 'tiedvals':
+        T = T[[0, 1, 0, 1, 0, 2]]
     s = np.column_stack([T, X])[:n].copy()
     w = np.array(OPT_W[wlet][:n], dtype=float)
     if not w.sum() > 0:
@@ -811,7 +824,7 @@ def opt_case(case):
 
 
 def opt_cases(tier):
-    dims = {'R': [1, 2, 3], 'n': [4, 1, 2, 3], 'wlet': ['distinct', 'equal', 'ties', 'zero', 'tiny', 'one-nonzero'],
+    dims = {'R': [1, 2, 3], 'n': [4, 1, 2, 3], 'wlet': ['distinct', 'equal', 'ties', 'zero', 'tiny', 'one-nonzero', 'tiedvals'],
             'perm': [0, 1], 'frac': [1.0, 0.5], 'entry': ['direct', 'fit']}
     if tier == 'quick':
         cases = core.product_cases(dims, core=['R', 'n', 'wlet', 'perm'], d=2)
